@@ -353,7 +353,7 @@ pub fn c12(o: &Opts, t: &mut Tracer) -> Value {
     let mut rng = rng_for(o.seed, 0xC12);
     // (a) every byte string over the decoder alphabet into a chunked body reader, whole and in 1-byte pieces
     let alpha: [u8; 9] = [b'0', b'1', b'a', b'F', b';', b' ', b'\r', b'\n', b'x'];
-    let maxlen = if o.quick() { 5 } else { 6 };
+    let maxlen = if o.quick() { 5 } else { 7 };
     let head = b"HTTP/1.1 200 OK\r\nTransfer-Encoding: chunked\r\n\r\n";
     let mut nstr = 0u64;
     let mut cur: Vec<usize> = vec![];
@@ -380,6 +380,9 @@ pub fn c12(o: &Opts, t: &mut Tracer) -> Value {
         let s: Vec<u8> = cur.iter().map(|&k| alpha[k]).collect();
         nstr += 1;
         if o.quick() && s.len() == maxlen && nstr % 3 != o.seed % 3 {
+            continue;
+        }
+        if !o.quick() && s.len() == maxlen && nstr % 8 != o.seed % 8 {
             continue;
         }
         for mode in 0..2 {
@@ -427,7 +430,7 @@ pub fn c12(o: &Opts, t: &mut Tracer) -> Value {
         b"HTTP/1.1", b"HTTP/1.0", b" ", b"100", b"200", b"302", b"\r\n", b"\r", b"\n", b"Location:", b"Content-Length:",
         b"Transfer-Encoding: chunked", b"Connection: close", b"x", b"5", b"99999999999999999999", b"HTTP/2.0",
     ];
-    let tlen = if o.quick() { 3 } else { 4 };
+    let tlen = if o.quick() { 3 } else { 5 };
     let total: usize = (1..=tlen).map(|k| toks.len().pow(k as u32)).sum();
     let mut ntok = 0u64;
     for idx in 0..total {
@@ -439,6 +442,9 @@ pub fn c12(o: &Opts, t: &mut Tracer) -> Value {
             k += 1;
         }
         if o.quick() && k == tlen && idx % 2 != (o.seed % 2) as usize {
+            continue;
+        }
+        if !o.quick() && k == tlen && idx % 16 != (o.seed % 16) as usize {
             continue;
         }
         let mut s: Vec<u8> = vec![];
@@ -485,7 +491,7 @@ pub fn c12(o: &Opts, t: &mut Tracer) -> Value {
         }
     }
     // (d) random mutations at byte level: bit flips / deletions / duplications of rendered valid exchanges
-    let nrand = if o.quick() { 1500 } else { 60000 };
+    let nrand = if o.quick() { 1500 } else { 300000 };
     let bases: Vec<Vec<u8>> = vec![
         b"HTTP/1.1 200 OK\r\nContent-Length: 5\r\nX-A: b\r\n\r\nhello".to_vec(),
         b"HTTP/1.1 200 OK\r\nTransfer-Encoding: chunked\r\n\r\n3\r\nabc\r\nA;x=1\r\n0123456789\r\n0\r\nt: v\r\n\r\n".to_vec(),
